@@ -357,8 +357,16 @@ fn main() {
                         keep.insert(k);
                     }
                 }
-                let delivered: Vec<usize> = keep.into_iter().collect();
-                let (d, _) = deliver(&sh, &delivered, "late_fdt", &mut cr.violations);
+                let mut delivered: Vec<usize> = keep.into_iter().collect();
+                let mut tag = "late_fdt";
+                if round == 5 && !sh.em.oti_of(0).inband_fti {
+                    // FDT-only OTI: every FDT copy is lost until the whole object (close-object packet included) has
+                    // arrived; one copy arrives afterwards (the carousel goes on)
+                    delivered.retain(|k| sh.em.stream[*k].toi() != 0);
+                    delivered.push(chosen);
+                    tag = "fdt_after_object";
+                }
+                let (d, _) = deliver(&sh, &delivered, tag, &mut cr.violations);
                 n_dec += d;
                 n_runs += 1;
             }
